@@ -8,6 +8,7 @@ CONSTANTS
   Fmts = {"bc"}
   NFiles = {1}
   Lazy = {"none", "other"}
+  ProbeMax = 5
   Touches = {"lookup", "getitem"}
   Variant = "eager_expand_gated"
 INVARIANT TypeOK
